@@ -48,9 +48,10 @@ const (
 	oSection = "section-bytes-and-fields"
 	oEncap   = "decoded-content-partitioned"
 	oME      = "me-region-bytes-and-fields"
+	oCover   = "files-and-free-space-cover-volume"
 )
 
-var oracleNames = []string{oFlash, oDesc, oBios, oVolume, oInside, oFile, oSection, oEncap, oME}
+var oracleNames = []string{oFlash, oDesc, oBios, oVolume, oInside, oFile, oSection, oEncap, oME, oCover}
 
 type decodeRec struct {
 	key string // fnv:len of the decoder's input
@@ -448,6 +449,26 @@ func (w *walker) fv(v *fuefi.FirmwareVolume, data []byte) {
 	if v.FreeSpace != 0 && v.FreeSpace != L-up(off, 8) {
 		w.fail(oVolume, "FreeSpace %#x, the last file ends at %#x in a volume of %#x", v.FreeSpace, off, L)
 	}
+	// completeness ("accounts for every input byte"): behind the last file the tree reports free space, or
+	// what is left cannot hold a file header.  Bytes that are neither in a file node nor reported as free
+	// space, although a header fits and they are not erased, are accounted for by nothing.
+	if rest := L - minU(up(off, 8), L); v.FreeSpace == 0 && rest >= 24 {
+		tail := fvbuf[up(off, 8):]
+		erased := true
+		for _, x := range tail {
+			erased = erased && x == 0xFF
+		}
+		if !erased {
+			w.fail(oCover, "%d bytes at [%#x,%#x) are not erased and belong to no file node, FreeSpace is 0", rest, up(off, 8), L)
+		}
+	}
+}
+
+func minU(a, b uint64) uint64 {
+	if a < b {
+		return a
+	}
+	return b
 }
 
 func (w *walker) file(f *fuefi.File, ctx []byte, idx int) {
